@@ -122,6 +122,47 @@ def out_variants(chk, cplx, good):
                                                                             reproducer=cb.reproducer(r2)))
 
 
+BILINEAR = {"scalar_mult": lambda c, a: c.scalar_mult(a[0], a[1]), "elementwise_mult": lambda c, a: c.elementwise_mult(a[0], a[1]),
+            "matmul": lambda c, a: c.matmul(a[0], a[1]), "inner_prod": lambda c, a: c.inner_prod(a[0], a[1]),
+            "outer_prod": lambda c, a: c.outer_prod(a[0], a[1]), "kronecker_prod": lambda c, a: c.kronecker_prod(a[0], a[1]),
+            "einsum": None}
+
+
+def live_operands(chk, cplx, good):
+    """The products are bilinear: the SAME operand objects, the first doubled in place between two calls, give exactly
+    twice the first result (a power of two: no rounding) - and the first result, still held by the caller, keeps
+    its value.  Nothing a call remembers about tensor objects it has seen may show."""
+    import torch
+    n = 0
+    for rec in good:
+        if rec["def"] != "ok" or rec["op"] not in BILINEAR or "I" in rec["opt"][0]:
+            continue
+        if rec["op"] == "scalar_mult" and rec["opt"][1][0] != "none":
+            continue
+        if rec["kind"] == "none":        # an einsum asked for neither part returns nothing
+            continue
+        n += 1
+        if n % 5:
+            continue
+        a = [cb.tens(e, 0) for e in rec["args"]]
+        f = BILINEAR[rec["op"]] or (lambda c, aa, _r=rec: c.einsum(cb.eq_string(_r["opt"]), aa[0], aa[1],
+                                                                    real_part="r" in _r["opt"][4], imag_part="i" in _r["opt"][4]))
+        try:
+            v1 = f(cplx, a)
+            held = v1.clone()
+            a[0].mul_(2.0)
+            v2 = f(cplx, a)
+        except Exception as ex:      # noqa: BLE001
+            chk.violation(cb.key(rec, "live-operands:raised"), dict(case=rec, raised=repr(ex)))
+            continue
+        chk.evaluations += 1
+        if not torch.equal(v1, held):
+            chk.violation(cb.key(rec, "live-operands:earlier-result-changed"), dict(case=rec, reproducer=cb.reproducer(rec)))
+        elif v2.shape != held.shape or not torch.equal(v2, held * 2.0):
+            chk.violation(cb.key(rec, "live-operands:second-call"), dict(case=rec, first=held.tolist(), second=v2.tolist(),
+                                                                      note="first operand doubled in place between the calls"))
+
+
 class Patched:
     """The library module with some attributes replaced (negative controls only)."""
 
@@ -265,6 +306,7 @@ def run(tier, seed):
             warnings.simplefilter("ignore")     # torch: "creating a tensor from a list of numpy.ndarrays" (sigmoid)
             good = replay_cases(chk, cplx, recs)
             out_variants(chk, cplx, good)
+            live_operands(chk, cplx, good)
             controls(chk, cplx, good)
         for r in recs[:: max(1, len(recs) // 6)][:6]:
             chk.sample(json.dumps(dict(op=r["op"], opt=r["opt"], args=r["args"], defined=r["def"], exp=r["exp"])))
